@@ -241,4 +241,86 @@ theorem run_sorted (ops : List Op) (s : St) (h : s.KeysAscending) : (run s ops).
     | pop a => exact pop_sorted s a h
     | reset => simp [St.step, St.reset, St.KeysAscending, Sorted]
 
+/-! ### an old-enough head sample is always delivered; a drain empties the buffer -/
+
+theorem firstSeq_mem (s : St) (f : Nat) (h : s.firstSeq = some f) : ∃ e ∈ s.samples, e.1 = f := by
+  unfold St.firstSeq at h
+  split at h
+  · cases h
+  · rename_i k0 v0 t hs
+    split at h
+    · simp only at h
+      split at h
+      · -- kn
+        cases hl : s.samples.getLast? with
+        | none => simp [hl] at h; exact ⟨(k0, v0), by rw [hs]; simp, h⟩
+        | some e =>
+          simp [hl] at h
+          exact ⟨e, List.mem_of_getLast? hl, h⟩
+      · simp at h; exact ⟨(k0, v0), by rw [hs]; simp, h⟩
+    · simp only at h
+      split at h
+      · split at h
+        · rename_i e he
+          simp at h
+          exact ⟨e, List.mem_of_find?_eq_some he, h⟩
+        · simp at h; exact ⟨(k0, v0), by rw [hs]; simp, h⟩
+      · simp at h; exact ⟨(k0, v0), by rw [hs]; simp, h⟩
+
+theorem firstSeq_isSome (s : St) (h : s.samples ≠ []) : s.firstSeq.isSome := by
+  unfold St.firstSeq
+  split
+  · contradiction
+  · simp only []
+    repeat' split
+    all_goals rfl
+
+/-- **no head-of-line blocking once old enough**: a non-empty buffer whose head sample is older than `max_delay`
+always delivers on `pop`, the delivered sample was in the buffer, and the buffer shrinks. -/
+theorem pop_aged_delivers (s : St) (h : s.samples ≠ []) :
+    ∃ x, (s.pop true).2 = some x ∧ (∃ e ∈ s.samples, e.2 = x) ∧ (s.pop true).1.samples.length < s.samples.length := by
+  have hf := firstSeq_isSome s h
+  cases hfs : s.firstSeq with
+  | none => simp [hfs] at hf
+  | some f =>
+    obtain ⟨e, he, hef⟩ := firstSeq_mem s f hfs
+    unfold St.pop
+    simp only [hfs, Bool.or_true, ↓reduceIte]
+    unfold St.take
+    have hfind : (s.samples.find? (fun e => e.1 == f)).isSome := by
+      rw [List.find?_isSome]
+      exact ⟨e, he, by simp [hef]⟩
+    cases hfd : s.samples.find? (fun e => e.1 == f) with
+    | none => simp [hfd] at hfind
+    | some e' =>
+      simp only
+      refine ⟨e'.2, rfl, ⟨e', List.mem_of_find?_eq_some hfd, rfl⟩, ?_⟩
+      have hm := List.mem_of_find?_eq_some hfd
+      have hp := List.find?_some hfd
+      simp only [beq_iff_eq] at hp
+      apply List.length_filter_lt_length_iff_exists.mpr
+      exact ⟨e', hm, by simp [hp]⟩
+
+theorem pop_empty (s : St) (a : Bool) (h : s.samples = []) : s.pop a = (s, none) := by
+  unfold St.pop St.firstSeq
+  simp [h]
+
+/-- the harness' end-of-case drain (`max_delay = 0`) leaves the buffer empty: every buffered sample is eventually
+delivered once it is old enough — nothing is stranded behind a gap. -/
+theorem drain_empties (n : Nat) (s : St) (acc : List Nat) (h : s.samples.length < n) : (s.drain n acc).1.samples = [] := by
+  induction n generalizing s acc with
+  | zero => omega
+  | succ n ih =>
+    unfold St.drain
+    by_cases he : s.samples = []
+    · rw [pop_empty s true he]; exact he
+    · obtain ⟨x, hx, _, hlen⟩ := pop_aged_delivers s he
+      cases hp : s.pop true with
+      | mk s' r =>
+        rw [hp] at hx hlen
+        simp only at hx hlen
+        subst hx
+        simp only
+        exact ih s' _ (by omega)
+
 end RtcModel.Jitter
